@@ -149,27 +149,27 @@ def check_R1(ctx, facts):
            'Ok is returned only after the rebuilt states were installed' if ld else 'the rebuilt states are never installed')
 
 
-def check_R3(ctx, facts):
+def check_R3(ctx, facts, rule='C07.R3'):
     bs = [b for b in facts.bodies.values() if b.kind == 'coroutine' and b.name == EC + 'EventuallyConsistentStore::create::{closure#0}']
     if not bs:
-        ctx.bad('C07.R3', 'anchor', '', 'EventuallyConsistentStore::create not found (fail closed)')
+        ctx.bad(rule, 'anchor', '', 'EventuallyConsistentStore::create not found (fail closed)')
         return
     body = bs[0]
     flow = Flow(body)
     calls = list(body.calls())
     ld = [(b, t) for b, t in calls if cname(t) == G + 'load_states_from_storage']
     if len(ld) != 1:
-        ctx.bad('C07.R3', 'load', site(body), 'store creation does not rebuild the keyspaces from storage exactly once')
+        ctx.bad(rule, 'load', site(body), 'store creation does not rebuild the keyspaces from storage exactly once')
         return
     re_ = ResultEdges(body, flow, ld[0][0])
     serve = [(b, t) for b, t in calls if cname(t) in ('datacake_node::DatacakeNode::add_rpc_service', EC + 'replication::poller::start_replication_cycle',
                                                       EC + 'replication::distributor::start_task_distributor_service', EC + 'replication::start_replication_cycle',
                                                       EC + 'replication::start_task_distributor_service')]
-    ctx.floor('C07.R3', 'service registration / task start sites', len(serve), 4)
+    ctx.floor(rule, 'service registration / task start sites', len(serve), 4)
     for b, t in serve:
-        idx = len([o for o in ctx.obs if o.rule == 'C07.R3' and o.key.startswith(last_seg(cname(t)))])
+        idx = len([o for o in ctx.obs if o.rule == rule and o.key.startswith(last_seg(cname(t)))])
         good = re_.inspected and re_.ok_dominates(b) and b not in re_.reachable_from_err()
-        ctx.ob('C07.R3', '%s#%d' % (last_seg(cname(t)), idx), good, site(body, t['cs']),
+        ctx.ob(rule, '%s#%d' % (last_seg(cname(t)), idx), good, site(body, t['cs']),
                '%s happens only after the rebuild succeeded' % last_seg(cname(t)) if good else
                '%s can happen before / without a successful rebuild: peers and clients are served from an empty or partial set' % last_seg(cname(t)))
 
